@@ -108,7 +108,7 @@ int LLVMFuzzerTestOneInput(const uint8_t *data, size_t size)
 	sel = fz_u8(&fin) & 31;
 	par = fz_u8(&fin);
 	n = fin.n;
-	if ((fz_skip("oid33") && fz_long_oid(fin.p, n)) || (fz_skip("aia") && fz_aia_unknown(fin.p, n, 0))) {
+	if (fz_skip_x509_shapes(fin.p, n, 0)) {
 		FZ_EXCLUDED();
 		fz_end();
 		return 0;
